@@ -355,7 +355,15 @@ fn build_index<I>(rng: &mut Rng, ms: u8, d: u8, nref: usize, hdr: Option<Header>
 where
     I: binning_index::index::reference_sequence::Index + Default,
 {
-    let maxp = (1u64 << (ms as u64 + 3 * d as u64)) - 1;
+    build_index_upto(rng, ms, d, nref, hdr, u64::MAX)
+}
+
+/// positions limited to `limit` (a linear index then has at most limit >> 14 entries)
+fn build_index_upto<I>(rng: &mut Rng, ms: u8, d: u8, nref: usize, hdr: Option<Header>, limit: u64) -> binning_index::Index<I>
+where
+    I: binning_index::index::reference_sequence::Index + Default,
+{
+    let maxp = ((1u64 << (ms as u64 + 3 * d as u64)) - 1).min(limit);
     let mut ix = Indexer::<I>::new(ms, d);
     if let Some(h) = hdr {
         ix = ix.set_header(h);
@@ -385,6 +393,16 @@ where
 pub fn bai_file(rng: &mut Rng) -> Vec<u8> {
     let nref = rng.range(0, 3) as usize;
     let index: bam::bai::Index = build_index::<LinearIndex>(rng, 14, 5, nref, None);
+    let mut buf = Vec::new();
+    bam::bai::io::Writer::new(&mut buf).write_index(&index).unwrap();
+    buf
+}
+
+/// a BAI file whose linear indices stay short (for the model-compared kinds)
+pub fn bai_file_small(rng: &mut Rng) -> Vec<u8> {
+    let nref = rng.range(0, 3) as usize;
+    let limit = *rng.pick(&[1u64 << 15, 1 << 17, 1 << 20]);
+    let index: bam::bai::Index = build_index_upto::<LinearIndex>(rng, 14, 5, nref, None, limit);
     let mut buf = Vec::new();
     bam::bai::io::Writer::new(&mut buf).write_index(&index).unwrap();
     buf
